@@ -3,6 +3,7 @@ package main
 import (
 	"fmt"
 	"go/types"
+	"regexp"
 	"sort"
 	"strings"
 	"sync"
@@ -283,6 +284,32 @@ func (p *gxParser) primary() {
 	}
 }
 
+// gxReferenceFail: the column (index+1 in the lexeme string) of the token at which the sentence stops being a
+// prefix of any sentence of the grammar: the unclassifiable lexeme, or the first token the reference parser
+// cannot continue with; 0 when the input ends too early (no token to point at), -1 for a sentence.
+func gxReferenceFail(ls []lexeme) int {
+	toks, ok := gxLex(ls)
+	if !ok {
+		for i := range ls {
+			if _, ok := gxLex(ls[:i+1]); !ok {
+				return i + 1
+			}
+		}
+		return 0
+	}
+	p := &gxParser{toks: toks}
+	p.level(0)
+	if !p.fail && p.pos == len(p.toks) {
+		return -1
+	}
+	if p.pos < len(p.toks) {
+		return p.toks[p.pos].col
+	}
+	return 0
+}
+
+var reErrorAt = regexp.MustCompile(`at line (-?\d+) and column (-?\d+)$`)
+
 // gxReference: (accepted, post-order).
 func gxReference(ls []lexeme) (bool, []string) {
 	toks, ok := gxLex(ls)
@@ -344,6 +371,7 @@ func (c *Ctx) newGxHarness() *gxHarness {
 type gxResult struct {
 	kind string // "accept", "reject", "panic", "opaque"
 	code string
+	msg  string
 	rpn  []string
 	why  string
 }
@@ -381,7 +409,7 @@ func (h *gxHarness) parse(ls []lexeme) gxResult {
 		return gxResult{kind: "opaque", why: out.why}
 	}
 	if _, isNil := errv.(mNilT); !isNil {
-		res := gxResult{kind: "reject", code: errorCode(errv)}
+		res := gxResult{kind: "reject", code: errorCode(errv), msg: errorField(errv, "Message")}
 		return res
 	}
 	rv, out := h.m.Call(h.resultTokens, h.parser)
@@ -492,6 +520,9 @@ func gxFamilies(thorough bool) []gxFamily {
 	fams = append(fams, gxFamily{"spacing-comments-case", []string{
 		"a ␠ + ␠ b", "␠ a", "a ␠", "a /*c*/ + b", "/*c*/ a", "a /*c*/", "a and b", "a And b", "not a", "a is null", "a Is Not Null", "a not in b", "a like b", "a xor b", "true", "False",
 		"a ␠ IS ␠ /*c*/ NOT ␠ NULL", "f ␠ ( ␠ a ␠ , ␠ b ␠ )", "␠", "/*c*/", "a ␠ ␠ b",
+		// every keyword in lower and mixed case
+		"false", "fAlSe", "tRuE", "TRUE", "a aNd b", "a oR b", "a or b", "a xOr b", "a iN b", "a in b", "a Like b", "a iS nUlL", "a is not null", "a Not In b", "a nOT lIKE b", "nOt a",
+		"a = false", "a = FALSE", "a AND true", "a and false",
 	}})
 	// calls whose arguments are themselves calls of every small arity, in every position
 	var nested []string
@@ -566,6 +597,8 @@ func gxFamilies(thorough bool) []gxFamily {
 
 type gxVerdict struct {
 	treeBad, langBad, undec string
+	posBad                  string
+	positions               int
 	runs, sentences         int
 }
 
@@ -599,6 +632,8 @@ func (c *Ctx) gxRun() []*gxFamVerdict {
 		type res struct {
 			idx                     int
 			treeBad, langBad, undec string
+			posBad                  string
+			positioned              bool
 			sentence                bool
 		}
 		results := make([]res, len(f.items))
@@ -637,6 +672,15 @@ func (c *Ctx) gxRun() []*gxFamVerdict {
 						} else if got.code == "" {
 							r.langBad = fmt.Sprintf("%s is rejected with an error that carries no code", show)
 						}
+						// a position quoted in the message points at the offending token (tokens sit at line 1, column = index)
+						if mm := reErrorAt.FindStringSubmatch(got.msg); mm != nil && !acc {
+							if fc := gxReferenceFail(ls); fc > 0 {
+								r.positioned = true
+								if mm[1] != "1" || mm[2] != fmt.Sprint(fc) {
+									r.posBad = fmt.Sprintf("%s is rejected with %q; the offending token (the first one no sentence continues with) is ‹%s› at line 1, column %d", show, got.msg, ls[fc-1].text, fc)
+								}
+							}
+						}
 					}
 					results[i] = r
 				}
@@ -653,6 +697,12 @@ func (c *Ctx) gxRun() []*gxFamVerdict {
 			}
 			if r.langBad != "" && fv.v.langBad == "" {
 				fv.v.langBad = r.langBad
+			}
+			if r.posBad != "" && fv.v.posBad == "" {
+				fv.v.posBad = r.posBad
+			}
+			if r.positioned {
+				fv.v.positions++
 			}
 			if r.undec != "" && fv.v.undec == "" {
 				fv.v.undec = r.undec
@@ -672,6 +722,7 @@ func (c *Ctx) gxRun() []*gxFamVerdict {
 		if o.kind != "ok" {
 			fv.v.undec = "NewExpressionParser: " + o.why
 		} else {
+			hx := c.newGxHarness()
 			var exprs []string
 			for _, f := range fams {
 				switch f.name {
@@ -712,6 +763,31 @@ func (c *Ctx) gxRun() []*gxFamVerdict {
 					fv.v.sentences++
 				}
 				show := "‹" + e + "›"
+				// the program compiled from the text: the token types of the reference post-order
+				if acc && answers[1] == "accepted" && hx.fault == "" {
+					_, want := gxReference(ls)
+					var wantT, gotT []string
+					for _, w := range want {
+						w = w[:strings.IndexAny(w, "@#")]
+						wantT = append(wantT, w)
+					}
+					if rv, o := m.Call(hx.resultTokens, parser); o.kind == "ok" {
+						if sl, ok := rv.(mSlice); ok {
+							tokT := hx.resultTokens.Signature.Results().At(0).Type().Underlying().(*types.Slice).Elem()
+							for _, t := range sl.arr {
+								if f := c.lookupMethod(tokT, "Type"); f != nil {
+									ty, _ := m.Call(f, t)
+									if tn, ok := ty.(int64); ok {
+										gotT = append(gotT, hx.etNames[tn])
+									}
+								}
+							}
+						}
+						if strings.Join(gotT, " ") != strings.Join(wantT, " ") && fv.v.treeBad == "" {
+							fv.v.treeBad = fmt.Sprintf("ParseString(%s) compiles to [%s]; the post-order of its syntax tree is [%s] (spelling, spacing and letter case do not change the tree)", show, strings.Join(gotT, " "), strings.Join(wantT, " "))
+						}
+					}
+				}
 				switch {
 				case strings.HasPrefix(answers[0], "opaque"):
 					if fv.v.undec == "" {
@@ -778,6 +854,17 @@ func ruleGramParse(c *Ctx) []*Obligation {
 			o.undecided(kl, pos, fv.v.undec)
 		default:
 			o.ok(kl, pos, by)
+		}
+		if fv.v.positions > 0 || fv.v.posBad != "" {
+			kp := strings.Replace(kl, "#language#", "#error-position#", 1)
+			switch {
+			case fv.v.posBad != "":
+				o.bad(kp, pos, fv.v.posBad)
+			case fv.v.undec != "":
+				o.undecided(kp, pos, fv.v.undec)
+			default:
+				o.ok(kp, pos, fmt.Sprintf("%d rejections quote the position of the offending token", fv.v.positions))
+			}
 		}
 	}
 	sort.SliceStable(o.list, func(i, j int) bool { return o.list[i].Construct < o.list[j].Construct })
